@@ -12,7 +12,7 @@ remainder); the (min, max) price ordering; the reach-target decision (`lte` is v
 overflow counts as not reached, target taken exactly when lte).
 Not decided: equality with exact rational arithmetic, one-unit tightness, "as far as
 the budget allows", correctness of the 256-bit division. Pure numerics."""
-from analysis import cfg, atoms as A, preach
+from analysis import cfg, atoms as A, preach, writes
 from analysis.ir import callee_path, op_const, op_place, AnchorMissing
 from analysis.prov import prov_of, prov_assuming, show, strip, leaves, subterms
 from analysis.match import is_param, is_call, const_val, const_name, sh, mentions, call_args, fail_conditions
@@ -74,6 +74,19 @@ def R1_step_polarity(run):
             run.check("R1", "%s[exact_in=%d,a_to_b=%d]" % (name.rsplit("::", 1)[-1], ei, ab), got == want,
                       "%s picks the wrong token or rounding in context exact_in=%s a_to_b=%s" % (name, ei, ab), loc=g.loc(),
                       expected=str(want), found=str(got), detail="%s round_up=%s" % (want_p.rsplit("_", 1)[-1], list(want)[0][1]))
+
+
+def R1b_who_decides_overflow(run):
+    run.title("R1b", "whether a curve amount fits u64 is decided by the two curve primitives from the computed quotient and by nobody else: "
+                     "AmountDeltaU64::{Valid, ExceedsMax} values are built only in try_get_amount_delta_a / _b (a shortcut elsewhere that declares "
+                     "`ExceedsMax` from operand magnitudes lets compute_swap overshoot its target)")
+    facts = run.facts
+    adt = TM + "AmountDeltaU64"
+    who = sorted({c["fn"].path for c in writes.constructions(facts, adt) if not c["fn"].expn and "test" not in c["fn"].file.rsplit("/", 1)[-1]})
+    allowed = {TM + "try_get_amount_delta_a", TM + "try_get_amount_delta_b"}
+    extra = [w for w in who if w not in allowed]
+    run.check("R1b", "amount-delta-constructors", not extra and set(who) == allowed, "AmountDeltaU64 values are built in %s; expected only the two curve primitives" % (extra or who),
+              loc=facts.fn(extra[0]).loc() if extra and facts.fn(extra[0]) else None, detail="built only in try_get_amount_delta_a / _b (%d sites)" % len(writes.constructions(facts, adt)))
 
 
 INCR_PRIMS = [TM + "try_get_amount_delta_a", TM + "try_get_amount_delta_b", BM + "div_round_up_if", BM + "div_round_up_if_u256",
@@ -544,6 +557,10 @@ def check_remainder_exact(run, rule, fn):
     problems = []
     for bi, q in incs:
         q = _uncast(q)
+        # `n.checked_div(d).ok_or(E)?` is `n / d` behind a zero test (for unsigned integers None means d == 0 and nothing else)
+        if q[0] == "call" and q[1].endswith("ok_or") and is_call(q[2][0], "checked_div"):
+            cd_ = strip(q[2][0])
+            q = ("bin", "Div", cd_[2][0], cd_[2][1])
         # the guarding atoms: those (other than a bare bool parameter) on whose one side only the increment is reachable
         guards = []
         for at in ats:
@@ -726,4 +743,4 @@ def R6_reach_target_decision(run):
     run.check("R6", "recompute-on-overflow", len(re_at) >= 1, "compute_swap no longer re-computes the fixed delta when the first estimate exceeded u64", loc=fn.loc(), detail="!is_max || exceeds_max() => recompute")
 
 
-RULES = [R1_step_polarity, R2_rounding_primitives, R3_next_price, R4_fee_and_amounts, R5_exact_remainders, R6_reach_target_decision]
+RULES = [R1_step_polarity, R1b_who_decides_overflow, R2_rounding_primitives, R3_next_price, R4_fee_and_amounts, R5_exact_remainders, R6_reach_target_decision]
